@@ -12,6 +12,31 @@ fn init() {
     ONCE.call_once(install_quiet_panic_hook);
 }
 
+/// The scope of a fuzz run: a property id restricts the judgement to that property's own oracle
+/// (a check must only ever report violations of its own property); no scope = every oracle.
+pub fn env_scope() -> Option<String> {
+    static SCOPE: std::sync::OnceLock<Option<String>> = std::sync::OnceLock::new();
+    SCOPE.get_or_init(|| std::env::var("PV_FUZZ_SCOPE").ok().filter(|s| !s.is_empty())).clone()
+}
+
+pub fn string_oracles_scoped(s: &str, scope: Option<&str>) -> Result<(), String> {
+    init();
+    let st = &mut Stats::scratch();
+    match scope {
+        Some("C01") => c01::roundtrip_all(s, st),
+        Some("C06") => c06::parse_all(s, st),
+        _ => string_oracles(s),
+    }
+}
+
+pub fn api_oracles_scoped(data: &[u8], scope: Option<&str>) -> Result<(), String> {
+    match (api_oracles(data), scope) {
+        // C06 is about panics only: a disagreement with a reference model belongs to another property
+        (Err(m), Some("C06")) if !m.contains("panicked") && !m.contains("panic escaped") => Ok(()),
+        (r, _) => r,
+    }
+}
+
 /// Every string-level oracle of the harness on one input string.
 pub fn string_oracles(s: &str) -> Result<(), String> {
     init();
@@ -47,8 +72,8 @@ pub fn api_oracles(data: &[u8]) -> Result<(), String> {
             let perm = (0..8).map(|_| d.ch.next(256) as u8).collect();
             c09::o_case(&c09::ProgCase { program, typed, perm }, st)
         },
-        2 => c11::o_case_pub(&d.qcase(), st),
-        3 => c12::o_case_pub(&d.ckcase(), st),
+        2 => c11::o_case_full(&d.qcase(), st),
+        3 => c12::o_case_full(&d.ckcase(), st),
         4 => {
             // a valid spelling of a small tuple parsed with a user shape
             let spec = d.spec();
